@@ -640,6 +640,7 @@ namespace Pistache::Http::Experimental
             const bool result = parser.feed(buffer, totalBytes);
             if (!result)
             {
+                parser.reset();
                 handleError("Client: Too long packet");
                 return;
             }
@@ -667,6 +668,9 @@ namespace Pistache::Http::Experimental
         }
         catch (const std::exception& ex)
         {
+            // the connection goes back to the pool: do not leave the rejected
+            // response's bytes and headers behind for the next one
+            parser.reset();
             handleError(ex.what());
         }
     }
